@@ -259,7 +259,7 @@ func TestVerifC04(t *testing.T) {
 				sort.Strings(names)
 				for _, n := range names {
 					ext := n[strings.LastIndex(n, "."):]
-					for mi, m := range []string{"x" + n, "foo/" + n, n + "x", n + "/" + n, strings.Replace(n, ".", "x", 1), strings.TrimSuffix(n, ext), strings.TrimSuffix(n, ext) + ".mp4x", strings.Replace(n, "/", "//", 1)} {
+					for mi, m := range []string{"x" + n, "foo/" + n, n + "x", n + "/" + n, strings.Replace(n, ".", "x", 1), strings.TrimSuffix(n, ext), strings.TrimSuffix(n, ext) + ".mp4x"} {
 						if valid[m] {
 							continue
 						}
